@@ -54,6 +54,8 @@ def cases(tier, seed):
                     "T": int(rng.choice([1, 2, 3])), "rotset": ("none", "list3", "list5", "range", "single")[int(rng.integers(0, 5))],
                     "model": ("ZNCC", "NCC", "PCC")[int(rng.integers(0, 3))], "scale": float(rng.choice([1.0, 0.7, 2.0])),
                     "iseed": int(rng.integers(0, 2**31)), "cost": 8.0})
+    for i in range(6 if tier == "quick" else 100):
+        out.append({"kind": "stub", "iseed": int(rng.integers(0, 2**31)), "cost": 0.5})
     for i in range(2 if tier == "quick" else 30):
         out.append({"kind": "many", "model": ("ZNCC", "NCC")[int(rng.integers(0, 2))],
                     "iseed": int(rng.integers(0, 2**31)), "cost": 25.0})
@@ -334,6 +336,53 @@ def _loader_case(case):
                        entry=entry, got=got, want=js[a], T=T, K=K, k=ks[a])
 
 
+def _stub_case(case):
+    """A model whose own optimiser returns a candidate-specific rotation (what the base class documents): the result of
+    a multi-template search carries label, shift, rotation and score of one and the same candidate, the best one."""
+    from acryo.alignment._base import BaseAlignmentModel
+
+    p = case.params
+    rng = gen.rng_for(p["iseed"], "c06s")
+    T = int(rng.integers(2, 6))
+    S = 6
+    quats = np.stack([gen.random_rotation(rng).as_quat() for _ in range(T)]).astype(np.float32)
+    shifts = rng.uniform(-1, 1, size=(T, 3)).astype(np.float32)
+
+    class _Stub(BaseAlignmentModel):
+        def pre_transform(self, image, backend):
+            return image
+
+        def _ident(self, template):
+            return int(round(float(np.asarray(template)[0, 0, 0])))      # the template's number is stored in a voxel
+
+        def _score(self, subvolume, template, quaternion, pos, backend):
+            return -float(np.abs(np.asarray(subvolume)[1:] - np.asarray(template)[1:]).mean())
+
+        def _optimize(self, subvolume, template, max_shifts, quaternion, pos, backend):
+            k = self._ident(template)
+            return shifts[k].copy(), quats[k].copy(), self._score(subvolume, template, quaternion, pos, backend)
+
+    tmpls = []
+    for k in range(T):
+        t_ = rng.normal(size=(S, S, S)).astype(np.float32)
+        t_[0, 0, 0] = k
+        tmpls.append(t_)
+    model = _Stub(tmpls)
+    case.nontrivial(p["iseed"])
+    for best in range(T):
+        img = (tmpls[best] + 0.05 * rng.normal(size=(S, S, S))).astype(np.float32)
+        res = model.align(img, (1.0, 1.0, 1.0))
+        want_score = -float(np.abs(img[1:] - tmpls[best][1:]).mean())
+        case.check(int(res.label) == best, "custom model: label is not the best candidate", None, got=int(res.label), want=best, T=T)
+        case.check(np.allclose(res.shift, shifts[best], atol=1e-6), "custom model: shift is not the best candidate's", None,
+                   got=res.shift, want=shifts[best])
+        case.check(gen.quat_close(res.quat, quats[best], 1e-6), "custom model: rotation is not the best candidate's "
+                   "(candidate-specific rotations returned by the model's own optimiser)", None, got=res.quat,
+                   want=quats[best], best=best, T=T)
+        case.check(abs(float(res.score) - want_score) <= 1e-6, "custom model: score is not the best candidate's", None,
+                   got=float(res.score), want=want_score)
+
+
 def _many_case(case):
     """More than 256 (rotation, template) candidates: the label feature must still name the template."""
     import polars as pl
@@ -382,6 +431,8 @@ def _many_case(case):
 
 
 def run(case):
+    if case.params["kind"] == "stub":
+        return _stub_case(case)
     from vcheck import instr
 
     if case.params["kind"] == "many":
